@@ -91,6 +91,8 @@ impl CheckInfo {
     }
 
     pub(crate) fn check(&self, source: &mut dyn Read) -> std::io::Result<bool> {
+        #[cfg(jubako_verif)]
+        crate::verif::point("pack_hash", 0, 0);
         if let Some(b3hash) = self.b3hash {
             let mut hasher = blake3::Hasher::new();
             hasher.update_reader(source)?;
